@@ -33,6 +33,41 @@ pub fn starved(p: &GenParams) -> BoxedStrategy<Scenario> {
     }).boxed()
 }
 
+/// lockstep sessions driven through advance_frame_with_wait*(): inputs for the current or the next frame
+/// arrive while the helper is spinning (latency around one tick), delays 0..=6
+pub fn lockstep_wait(p: &GenParams) -> BoxedStrategy<Scenario> {
+    (scenario(p), any::<u8>(), 0u16..45).prop_map(|(mut sc, w, lat)| {
+        sc.max_pred = 0;
+        sc.sparse = false;
+        for s in sc.specs.iter_mut() {
+            s.window = 0;
+        }
+        let mask = if w % 2 == 0 { 0xff } else { ((w >> 1) | 1) as u32 };
+        for (i, p) in sc.peers.iter_mut().enumerate() {
+            p.use_wait = (mask >> (i % 6)) & 1 == 1;
+        }
+        if w % 4 < 3 {
+            // fixed latency near the tick length: packets of the previous round land inside the wait
+            sc.links.clear();
+            sc.link.lat_min = lat;
+            sc.link.lat_max = lat + (w as u16 >> 6);
+        }
+        sc
+    }).boxed()
+}
+
+pub fn eval_wait(sc: &Scenario) -> CaseResult {
+    let (out, mut r) = eval_core(sc, PROPS, false);
+    let mid: u64 = out.peers.iter().map(|p| p.midwait_deliveries).sum();
+    let adv: u64 = out.peers.iter().map(|p| p.stats.first_sims).sum();
+    r.nontrivial = mid > 0 && adv > 20;
+    r.counters.push(("wait_calls_with_a_delivery_after_the_first_poll", mid));
+    if mid > 0 {
+        r.classes.push("midwait_delivery");
+    }
+    r
+}
+
 pub fn run(ctx: &Ctx) -> PropReport {
     let mut rep = PropReport::new("C02", "exploration");
     let mut p = GenParams::default();
@@ -53,6 +88,9 @@ pub fn run(ctx: &Ctx) -> PropReport {
                 super::c07::death_case((i * 7919) % (super::c07::NBASE * 120), seed, 1, &[0, 2])
             }
         }, eval, false));
+    let mut pw = p.clone();
+    pw.windows = vec![(1, 0)];
+    rep.part(|| run_random(ctx, "lockstep_wait", "same oracle (plus: an Err result never moves current_frame()); lockstep sessions in which all or a seeded subset of the peers call advance_frame_with_wait / _with_wait_timeout(3 ms) / (0) in rotation under an auto-ticking clock, link latency 0-45 ms so that the missing input - or the input of the next frame - arrives while the helper is spinning; non-trivial = a packet was delivered during a wait call after its first poll", || lockstep_wait(&pw), ctx.tier.pick(2500, 10000), eval_wait));
     rep.part(|| super::c13::c02_part(ctx));
     rep.floors.push(("p2p".into(), 0.3));
     rep.assumptions = vec!["the harness game executes requests strictly in order and is itself deterministic".into()];
